@@ -16,12 +16,12 @@
    Words.  A word is a 32-byte string; the specification never computes with the bytes, it only has
    to say WHICH word is where, so a word is a NAME (a number) telling where it came from:
      Val(v)       the opaque 256-bit value number v (pushed by push/push_b256/set, or pre-filled);
-     Chunk(j, n)  bytes 32j .. 32j+n-1 of THE slice and 32-n zero bytes (1 <= n <= 32; on which side
-                  the zeros are is the constant PadRight, see ChunkBytes).
+     Chunk(j, n)  the big-endian number spelt by bytes 32j .. 32j+n-1 of THE slice (1 <= n <= 32), see
+                  ChunkBytes.
    There is one infinite byte string, SliceByte(0), SliceByte(1), ...; push_slice(len) pushes its
    prefix of length len.  ChunkBytes gives the 32 bytes of a chunk word and the ASSUME below proves
    (TLC evaluates it) that the words pushed for every length in SliceLens are exactly the property's
-   "big-endian words, last one padded with zeros".  The harness embeds Val(v) as the U256 whose
+   "big-endian words", the last one zero-extended.  The harness embeds Val(v) as the U256 whose
    four 64-bit limbs are all different (v, v+2^32, v+2*2^32, v+3*2^32) and Chunk(j,n) as the
    big-endian number of its 32 bytes, and translates the real words back into names.
 
@@ -39,7 +39,6 @@ CONSTANTS
     Is,          \* arguments i of peek(i) and set(i, _)       (i >= 0)
     ExN, ExM,    \* arguments of exchange(n, m)                (n >= 0, m >= 1)
     SliceLens,   \* byte lengths of push_slice
-    PadRight,    \* where the zeros of a short last word go -- see ChunkBytes
     Window,      \* how many top words a projection shows word by word
     MaxHist      \* bound on the history length (exhaustive mode)
 
@@ -60,46 +59,43 @@ Chunk(j, n) == ChunkBase + 33 * j + n
 ChunkIndex(w) == (w - ChunkBase) \div 33        \* which 32-byte window of the slice
 ChunkLen(w)   == (w - ChunkBase) % 33           \* how many of its bytes
 
-\* Byte i (from 0) of the slice.  Never zero, so padding is distinguishable from data; the step
+\* Byte i (from 0) of the slice.  Never zero, so zero padding is distinguishable from data; the step
 \* between neighbouring bytes depends on the word index, so that all 32-byte windows starting at a
 \* multiple of 32 below 32*1255 differ (a word copied from the wrong place is a different word).
 SliceByte(i) == LET j == i \div 32
                     r == i % 32
                 IN  1 + ((j + r * (7 + (j \div 251))) % 251)
 
-\* The 32 bytes of a chunk word, most significant first.
-\*   PadRight = TRUE  is the sentence of the property: "the last word right-padded with zeros", the
-\*                    n bytes come first and 32-n zero bytes follow;
-\*   PadRight = FALSE is the other reading of "padded with zeros": the n bytes are right-ALIGNED, the
-\*                    32-n zero bytes come first, i.e. the word is the big-endian number the n bytes
-\*                    spell.  That is what the yellow paper demands of PUSH1..PUSH31 ("the bytes are
-\*                    right-aligned (take the lowest significant place in big endian)").
-\* The two differ only for a last word shorter than 32 bytes.
+\* The 32 bytes of a chunk word, most significant first: the word is the big-endian NUMBER its n
+\* bytes spell, so a short chunk has its 32-n zero bytes in the HIGH-order places.  This is the
+\* yellow paper's PUSH1..PUSH31 (push_slice is what PUSHn uses): "the bytes are right-aligned (take
+\* the lowest significant place in big endian)", e.g. the slice <<1>> is the word 1.  The property's
+\* "last word right-padded with zeros" is about the implementation's little-endian limb buffer, where
+\* the zero limbs come after the written ones; read as a big-endian byte string the zeros are on the
+\* left.  (A 32-byte chunk has no padding; only the last word of a slice can be short.)
 ChunkBytes(w) ==
     LET from == 32 * ChunkIndex(w)
         n    == ChunkLen(w)
         pad  == 32 - n
-    IN  [k \in 1..32 |-> IF PadRight THEN (IF k <= n THEN SliceByte(from + k - 1) ELSE 0)
-                                     ELSE (IF k > pad THEN SliceByte(from + k - pad - 1) ELSE 0)]
+    IN  [k \in 1..32 |-> IF k > pad THEN SliceByte(from + k - pad - 1) ELSE 0]
 
 NWords(len) == (len + 31) \div 32
 \* The words push_slice(len) pushes, in pushing order (the last one ends up on top).
 SliceWords(len) == [j \in 1..NWords(len) |-> Chunk(j - 1, Min(32, len - 32 * (j - 1)))]
 
 \* The property's sentence about slices, byte by byte: as few words as can hold the bytes; every word
-\* but the last is 32 consecutive bytes of the slice; the last one holds the remaining n bytes in
-\* order and 32-n zeros on the side PadRight says.
-ASSUME SlicesAreBigEndianWordsPadded ==
+\* but the last is 32 consecutive bytes of the slice; the last one holds the remaining n bytes, in
+\* order, in its n low-order places, and zeros above them.
+ASSUME SlicesAreBigEndianWords ==
     \A len \in SliceLens :
         LET ws == SliceWords(len) IN
         /\ len = 0 => ws = <<>>
         /\ len > 0 => 32 * (Len(ws) - 1) < len /\ len <= 32 * Len(ws)
         /\ \A j \in 1..Len(ws) :
-               LET n    == IF j < Len(ws) THEN 32 ELSE len - 32 * (Len(ws) - 1)
-                   from == IF PadRight THEN 0 ELSE 32 - n          \* zero bytes before the data
+               LET n   == IF j < Len(ws) THEN 32 ELSE len - 32 * (Len(ws) - 1)
+                   pad == 32 - n                                   \* zero bytes before the data
                IN  \A k \in 1..32 :
-                       ChunkBytes(ws[j])[k] = IF k > from /\ k <= from + n
-                                              THEN SliceByte(32 * (j - 1) + (k - from - 1)) ELSE 0
+                       ChunkBytes(ws[j])[k] = IF k > pad THEN SliceByte(32 * (j - 1) + (k - pad - 1)) ELSE 0
 
 \* ------------------------------------------------------------------- the operations, as functions
 Ok(s, o)  == [res |-> "ok", out |-> o, stk |-> s]
